@@ -8,7 +8,7 @@ Sub-checks
     haplomat    the four block-value builders (haplo.haplomat and the OHV / OPV / GenotypeBuilder ``_calc_haplomat``):
                 every entry written and finite, blocks sum to the chromosome copy's additive value, block values equal
                 the reference partition's
-    ohv         OHV matrices of the four OHV problem classes and of OptimalHaploidValueSubsetSelection.problem:
+    ohv         OHV matrices of the four OHV problem classes and of the four OptimalHaploidValue*Selection.problem:
                 ploidy * sum_b max_{parents,phases}; bound / attainment by doubled haploids recombining only at block
                 boundaries (evaluated marker by marker); invariance to the ``mem`` chunk size
     opv         OPV / GenotypeBuilder latent functions; OPV of a set bounds the OHV of every cross inside it
@@ -21,6 +21,11 @@ Sub-checks
 
 Oracles are Python loops with math.fsum over the raw 0/1 calls and effects, on a partition computed by the harness from
 the marker positions (numpy.linspace edges, closed bins, a marker on an inner boundary belongs to the later bin).
+
+Every genomic model handed to a ``_calc_haplomat`` / ``from_pgmat_gpmod`` / protocol ``problem`` routine is drawn with its
+documented optional components absent and present (``MODEL_SPEC``: miscellaneous random effects ``u_misc`` of 0-3 rows with
+arbitrary values, 1-3 fixed-effect rows, trait names or None, model name, hyperparameters, the additive+dominance subclass
+with non-zero dominance effects).  The oracle reads only the additive marker effects the model was given as ``u_a``.
 
 ``numpy.empty`` is replaced, while pybrops code runs, by an allocator that fills the new array with NaN (floats) or a
 sentinel (ints).  The contents of ``numpy.empty`` are unspecified, so this is one admissible behaviour; it makes
@@ -40,11 +45,12 @@ from pbt.core import SubCheck
 from pybrops.core.util import haplo as H
 from pybrops.popgen.gmat.DensePhasedGenotypeMatrix import DensePhasedGenotypeMatrix
 from pybrops.model.gmod.DenseAdditiveLinearGenomicModel import DenseAdditiveLinearGenomicModel
+from pybrops.model.gmod.DenseAdditiveDominanceLinearGenomicModel import DenseAdditiveDominanceLinearGenomicModel
 import pybrops.breed.prot.sel.prob.OptimalHaploidValueSelectionProblem as OHVM
 from pybrops.breed.prot.sel.prob.OptimalPopulationValueSelectionProblem import (
     OptimalPopulationValueSubsetSelectionProblem as OPVP)
 from pybrops.breed.prot.sel.prob.GenotypeBuilderSelectionProblem import GenotypeBuilderSubsetSelectionProblem as GBP
-from pybrops.breed.prot.sel.OptimalHaploidValueSelection import OptimalHaploidValueSubsetSelection
+import pybrops.breed.prot.sel.OptimalHaploidValueSelection as OHVPROT
 
 ASSUMPTIONS = [
     "genetic positions are non-decreasing within each chromosome and chromosomes are contiguous runs (the documented "
@@ -57,6 +63,10 @@ ASSUMPTIONS = [
     "a RuntimeError/ValueError 'more blocks than markers on a chromosome' for a total between the chromosome count and "
     "the marker count is accepted as a clean rejection (the code raises it deliberately); it is counted by a label",
     "genotypes are 0/1 calls, effects finite float64",
+    "the 'additive value' of a chromosome copy is the sum over its markers of allele x additive marker effect (the u_a "
+    "matrix of the genomic model); fixed effects (beta), miscellaneous random effects (u_misc), dominance effects (u_d of "
+    "the additive+dominance subclass), trait names, model name and hyperparameters of the model are drawn absent and "
+    "present and must not influence any block value or optimal value",
     "history: a problem object's public setters (haplomat / ohvmat / nbestfndr) are part of its interface; after an "
     "assignment the optimal values it reports are those of the block values it holds now (its own public attribute), "
     "whatever was evaluated before. The assigned block values are computed by the harness from new 0/1 genotypes and "
@@ -278,9 +288,25 @@ def bins_case(draw):
     return {"layout": lay, "nblk_raw": raws, "nblk_mode": mode, "free_labels": free}
 
 
+# The genomic model handed to the library is drawn with its documented optional components absent and present; the
+# oracle never looks at the model, only at the additive marker effects (``build_u``) the model was given as ``u_a``.
+MODEL_SPEC = st.fixed_dictionaries({
+    "cls": st.sampled_from(["A", "A", "A", "AD"]),                   # additive / additive + dominance linear model
+    "nmisc": st.sampled_from([0, 0, 1, 1, 2, 3]),                    # rows of u_misc (0 -> the argument is None)
+    "misc_kind": st.sampled_from(["ints", "floats", "big", "mixed_scale", "zeros"]),
+    "nbeta": st.sampled_from([1, 1, 2, 3]),                          # fixed-effect rows
+    "beta_kind": st.sampled_from(["zeros", "values"]),
+    "dom_kind": st.sampled_from(["none", "values", "values"]),       # u_d of the AD model (None -> zeros by the class)
+    "trait": st.sampled_from(["names", "names", "none", "other"]),
+    "model_name": st.sampled_from([None, None, "", "rrBLUP fit #3"]),
+    "hyperparams": st.sampled_from(["none", "none", "empty", "some"]),
+    "seed": st.integers(0, 2 ** 32 - 1)})
+
+
 @st.composite
 def geno_spec(draw):
-    return {"ploidy": draw(st.sampled_from([2, 2, 2, 2, 1, 3])),
+    return {"model": draw(MODEL_SPEC),
+            "ploidy": draw(st.sampled_from([2, 2, 2, 2, 1, 3])),
             "ntaxa": draw(st.sampled_from([1, 2, 3, 3, 4, 4, 5, 6])),
             "gkind": draw(st.sampled_from(["random", "random", "random", "inbred", "all0", "all1"])),
             "gseed": draw(st.integers(0, 2 ** 32 - 1)),
@@ -292,7 +318,8 @@ def geno_spec(draw):
 @st.composite
 def haplomat_case(draw):
     return {"layout": draw(layout_strategy()), "nb": draw(NB_SPEC), "g": draw(geno_spec()),
-            "impl": draw(st.sampled_from(["haplo", "ohv", "opv", "gb"]))}
+            "impl": draw(st.sampled_from(["haplo", "ohv", "opv", "gb"])),
+            "ohvcls": draw(st.sampled_from(["Subset", "Subset", "Real", "Integer", "Binary"]))}
 
 
 @st.composite
@@ -301,6 +328,7 @@ def ohv_case(draw):
         "mode": st.sampled_from(["nchr", "nmk", "mid", "mid", "low", "low", "low"]), "raw": st.integers(0, 10 ** 6)}))
     return {"layout": draw(layout_strategy(max_chr=3, max_mk=8)), "nb": spec, "g": draw(geno_spec()),
             "cls": draw(st.sampled_from(["Subset", "Subset", "Real", "Integer", "Binary", "protocol"])),
+            "protocol_cls": draw(st.sampled_from(["Subset", "Subset", "Real", "Integer", "Binary"])),
             "nparent": draw(st.sampled_from([1, 2, 2, 2, 3])),
             "unique": draw(st.booleans()),
             "mem": draw(st.sampled_from([None, 1, 2, 3, 1024])),
@@ -399,10 +427,70 @@ def build_pgmat(geno, chroms):
     return pg
 
 
-def build_gpmod(u):
-    t = u.shape[1]
-    return DenseAdditiveLinearGenomicModel(beta=numpy.zeros((1, t)), u_misc=None, u_a=u.copy(),
-                                           trait=numpy.array(["t%d" % i for i in range(t)], dtype=object))
+LEGACY_MODEL = {"cls": "A", "nmisc": 0, "misc_kind": "zeros", "nbeta": 1, "beta_kind": "zeros", "dom_kind": "none",
+                "trait": "names", "model_name": None, "hyperparams": "none", "seed": 0}
+
+
+def model_spec_of(g):
+    """cases saved before the model was drawn (regress/, replays/) have no "model" entry: the model they were run with"""
+    ms = g.get("model")
+    return dict(LEGACY_MODEL) if ms is None else ms
+
+
+def build_gpmod(u, ms=None):
+    """genomic model whose additive marker effects are ``u``; everything else about it comes from the model spec"""
+    ms = dict(LEGACY_MODEL) if ms is None else ms
+    p, t = u.shape
+    rng = numpy.random.default_rng(int(ms["seed"]))
+
+    def values(kind, rows):
+        if kind == "zeros":
+            a = numpy.zeros((rows, t))
+        elif kind == "ints":
+            a = rng.integers(-9, 10, size=(rows, t)).astype("float64")
+        elif kind == "big":
+            a = rng.integers(1, 10, size=(rows, t)).astype("float64") * 1000.0 * rng.choice([-1.0, 1.0], size=(rows, t))
+        elif kind == "floats":
+            a = rng.normal(size=(rows, t))
+        else:
+            a = rng.normal(size=(rows, t)) * 10.0 ** rng.integers(-6, 7, size=(rows, t))
+        return numpy.ascontiguousarray(a, dtype="float64")
+
+    nmisc = int(ms["nmisc"])
+    u_misc = None if nmisc == 0 else values(ms["misc_kind"], nmisc)
+    beta = values("zeros" if ms["beta_kind"] == "zeros" else "ints", int(ms["nbeta"]))
+    if ms["trait"] == "none":
+        trait = None
+    elif ms["trait"] == "names":
+        trait = numpy.array(["t%d" % i for i in range(t)], dtype=object)
+    else:
+        trait = numpy.array([("yield (kg/ha)", "prot\u00e9ine", "")[i % 3] for i in range(t)], dtype=object)
+    hyper = {"none": None, "empty": {}, "some": {"lambda": 0.25, "nfolds": 5, "grid": [0.1, 1.0]}}[ms["hyperparams"]]
+    if ms["cls"] == "AD":
+        u_d = None if ms["dom_kind"] == "none" else values("ints", p) * 3.0 + 0.5
+        return DenseAdditiveDominanceLinearGenomicModel(beta=beta, u_misc=u_misc, u_a=u.copy(), u_d=u_d, trait=trait,
+                                                        model_name=ms["model_name"], hyperparams=hyper)
+    return DenseAdditiveLinearGenomicModel(beta=beta, u_misc=u_misc, u_a=u.copy(), trait=trait,
+                                           model_name=ms["model_name"], hyperparams=hyper)
+
+
+def label_model(ctx, ms, where):
+    """generator statistics of the model's optional components; ``where`` = routine / class the model is handed to"""
+    misc = int(ms["nmisc"]) > 0
+    ctx.label("model_u_misc_present", misc)
+    ctx.label("model_u_misc_present:" + where, misc)
+    ctx.label("model_u_misc_absent:" + where, not misc)
+    ctx.label("model_u_misc_rows=%d" % int(ms["nmisc"]))
+    ctx.label("model_several_fixed_effect_rows", int(ms["nbeta"]) > 1)
+    ctx.label("model_nonzero_fixed_effects", ms["beta_kind"] != "zeros")
+    ctx.label("model_class=additive+dominance", ms["cls"] == "AD")
+    ctx.label("model_class=additive+dominance_with_u_misc", ms["cls"] == "AD" and misc)
+    ctx.label("model_nonzero_dominance_effects", ms["cls"] == "AD" and ms["dom_kind"] != "none")
+    ctx.label("model_trait_names_absent", ms["trait"] == "none")
+    ctx.label("model_name_given", ms["model_name"] is not None)
+    ctx.label("model_hyperparams_given", ms["hyperparams"] != "none")
+    ctx.label("model_all_optional_arguments_default", not misc and ms["cls"] == "A" and ms["trait"] == "none"
+              and ms["model_name"] is None and ms["hyperparams"] == "none")
 
 
 def ref_blockvalues(geno, u, labels, nblocks):
@@ -591,14 +679,14 @@ def check_bins(case, ctx):
 REJECT = (RuntimeError, ValueError)
 
 
-def call_haplomat(impl, total, geno, u, chroms):
+def call_haplomat(impl, total, geno, u, chroms, ms=None, ohvcls="Subset"):
     genpos, stix, spix, lens = flat_arrays(chroms)
     if impl == "haplo":
         return H.haplomat(total, geno.copy(), genpos, stix, spix, lens, u.copy())
     pg = build_pgmat(geno, chroms)
-    gm = build_gpmod(u)
+    gm = build_gpmod(u, ms)
     if impl == "ohv":
-        return OHVM.OptimalHaploidValueSubsetSelectionProblem._calc_haplomat(pg, gm, total)
+        return getattr(OHVM, "OptimalHaploidValue%sSelectionProblem" % ohvcls)._calc_haplomat(pg, gm, total)
     if impl == "opv":
         return OPVP._calc_haplomat(pg, gm, total)
     return GBP._calc_haplomat(pg, gm, total)
@@ -651,10 +739,13 @@ def check_haplomat(case, ctx):
     u = build_u(case["g"], p)
     impl = case["impl"]
     ctx.label("impl=" + impl)
+    ms = model_spec_of(case["g"])
+    if impl != "haplo":                              # haplo.haplomat takes the effect matrix itself, no model
+        label_model(ctx, ms, impl)
     gsnap, usnap = geno.copy(), u.copy()
     try:
         with poisoned():
-            hm = call_haplomat(impl, total, geno, u, chroms)
+            hm = call_haplomat(impl, total, geno, u, chroms, ms, case.get("ohvcls", "Subset"))
     except REJECT as e:
         if total < info["nchr"]:
             return                                  # documented rejection
@@ -690,7 +781,8 @@ def check_ohv(case, ctx):
         geno, u = build_geno(case["g"], p), build_u(case["g"], p)
         try:
             with poisoned():
-                OHVM.OptimalHaploidValueSubsetSelectionProblem._calc_haplomat(build_pgmat(geno, chroms), build_gpmod(u), info["total"])
+                OHVM.OptimalHaploidValueSubsetSelectionProblem._calc_haplomat(
+                    build_pgmat(geno, chroms), build_gpmod(u, model_spec_of(case["g"])), info["total"])
         except REJECT:
             return
         ctx.fail("ohv.more_blocks_than_markers_accepted", "per chromosome %s, markers %s" % (info.get("nblk"), info["lens"]))
@@ -705,14 +797,17 @@ def check_ohv(case, ctx):
         d = n
     xm = ref_xmap(n, d, unique)
     ctx.label("cls=" + case["cls"])
+    ctx.label("protocol_cls=" + case.get("protocol_cls", "Subset"), case["cls"] == "protocol")
     ctx.label("nparent=%d" % d)
     ctx.label("selfing_configs", not unique)
-    pg, gm = build_pgmat(geno, chroms), build_gpmod(u)
+    ms = model_spec_of(g)
+    label_model(ctx, ms, case["cls"])
+    pg, gm = build_pgmat(geno, chroms), build_gpmod(u, ms)
     nx = len(xm)
     with poisoned():
         if case["cls"] == "protocol":
-            prot = OptimalHaploidValueSubsetSelection(ntrait=t, nhaploblk=total, unique_parents=unique, ncross=1, nparent=d,
-                                                      nmating=1, nprogeny=1, nobj=t)
+            pcls = getattr(OHVPROT, "OptimalHaploidValue%sSelection" % case.get("protocol_cls", "Subset"))
+            prot = pcls(ntrait=t, nhaploblk=total, unique_parents=unique, ncross=1, nparent=d, nmating=1, nprogeny=1, nobj=t)
             prob = prot.problem(pg, None, None, None, gm, 0, 1)
         else:
             cls = getattr(OHVM, "OptimalHaploidValue%sSelectionProblem" % case["cls"])
@@ -803,7 +898,9 @@ def check_opv(case, ctx):
     ctx.label("selected=%d" % k_sel)
     ctx.label("selected_all_taxa", k_sel == n)
     nbest = 1 + int(case["nbest_raw"]) % k_sel
-    pg, gm = build_pgmat(geno, chroms), build_gpmod(u)
+    ms = model_spec_of(g)
+    label_model(ctx, ms, "opv+gb")
+    pg, gm = build_pgmat(geno, chroms), build_gpmod(u, ms)
     common = dict(ndecn=k_sel, decn_space=numpy.arange(n), decn_space_lower=numpy.repeat(0, k_sel),
                   decn_space_upper=numpy.repeat(n - 1, k_sel), nobj=t)
     with poisoned():
@@ -914,6 +1011,9 @@ def check_history(case, ctx):
     # otherwise the object is built through its constructor from the harness' block values
     route = case["build"] if not state["empty"] else "constructor"
     ctx.label("built_by=" + route)
+    ms = model_spec_of(g)
+    if route == "from_pgmat_gpmod":                  # the constructor route takes block values, no model
+        label_model(ctx, ms, "history_" + kind)
     nbest = 1 + int(case["nbest_raw"]) % n
     with poisoned():
         if kind in ("opv", "gb"):
@@ -925,7 +1025,7 @@ def check_history(case, ctx):
             cls = OPVP if kind == "opv" else GBP
             if route == "from_pgmat_gpmod":
                 prob = cls.from_pgmat_gpmod(nhaploblk=total, pgmat=build_pgmat(state["geno"], chroms),
-                                            gpmod=build_gpmod(state["u"]), **common)
+                                            gpmod=build_gpmod(state["u"], ms), **common)
                 assigned = None
             else:
                 assigned = state["hm"].copy()
@@ -944,7 +1044,7 @@ def check_history(case, ctx):
             cls = getattr(OHVM, "OptimalHaploidValue%sSelectionProblem" % ocls)
             if route == "from_pgmat_gpmod":
                 prob = cls.from_pgmat_gpmod(nparent=d, nhaploblk=total, unique_parents=unique,
-                                            pgmat=build_pgmat(state["geno"], chroms), gpmod=build_gpmod(state["u"]),
+                                            pgmat=build_pgmat(state["geno"], chroms), gpmod=build_gpmod(state["u"], ms),
                                             nobj=t, obj_wt=1.0, **kw)
                 assigned = None
             else:
@@ -1158,18 +1258,30 @@ SUBCHECKS = [
              required_labels=("empty_equal_width_bin", "marker_on_inner_boundary_and_all_bins_used",
                               "nblk=markers_on_every_chromosome", "one_block_per_chromosome")),
     SubCheck("haplomat", check_haplomat, haplomat_case(), quick=800, thorough=4000, shards_quick=4,
-             rule="layout x total x 0/1 genotypes (ploidy 1-3, 1-5 taxa) x effects (1-3 traits) x implementation; "
+             rule="layout x total x 0/1 genotypes (ploidy 1-3, 1-5 taxa) x effects (1-3 traits) x implementation x genomic "
+                  "model (u_misc 0-3 rows, 1-3 fixed-effect rows, additive / additive+dominance class, optional names); "
                   "non-trivial = >=2 blocks on a chromosome and every equal-width bin holds a marker (full oracle evaluated)",
              required_labels=("empty_equal_width_bin", "marker_on_inner_boundary_and_all_bins_used", "nhaploblk=nchr",
-                              "nhaploblk=nmarkers", "impl=haplo", "impl=ohv", "impl=opv", "impl=gb")),
+                              "nhaploblk=nmarkers", "impl=haplo", "impl=ohv", "impl=opv", "impl=gb",
+                              "model_u_misc_present:ohv", "model_u_misc_present:opv", "model_u_misc_present:gb",
+                              "model_u_misc_absent:ohv", "model_u_misc_absent:opv", "model_u_misc_absent:gb",
+                              "model_class=additive+dominance_with_u_misc", "model_several_fixed_effect_rows",
+                              "model_trait_names_absent", "model_name_given", "model_hyperparams_given")),
     SubCheck("ohv", check_ohv, ohv_case(), quick=400, thorough=2500, shards_quick=4,
-             rule="layout (<=3 chromosomes x <=8 markers) x total x genotypes x effects x problem class x nparent 1-3 x "
+             rule="layout (<=3 chromosomes x <=8 markers) x total x genotypes x effects x genomic model (optional components "
+                  "absent / present) x problem class or protocol class x nparent 1-3 x "
                   "unique/selfing cross maps; non-trivial = >=2 blocks on a chromosome and every equal-width bin holds a marker (full oracle evaluated)",
-             required_labels=("empty_equal_width_bin", "dh_enumeration_exhaustive", "cls=protocol", "cls=Subset")),
+             required_labels=("empty_equal_width_bin", "dh_enumeration_exhaustive", "cls=protocol", "cls=Subset",
+                              "model_u_misc_present:Subset", "model_u_misc_present:Real", "model_u_misc_present:Integer",
+                              "model_u_misc_present:Binary", "model_u_misc_present:protocol", "model_u_misc_absent:Subset",
+                              "model_class=additive+dominance", "model_several_fixed_effect_rows",
+                              "model_trait_names_absent")),
     SubCheck("opv", check_opv, opv_case(), quick=400, thorough=3000, shards_quick=4,
-             rule="layout x total x genotypes x effects x selected subset (1-5 distinct members) x nbestfndr; "
+             rule="layout x total x genotypes x effects x genomic model (optional components absent / present) x selected "
+                  "subset (1-5 distinct members) x nbestfndr; "
                   "non-trivial = >=2 blocks on a chromosome and every equal-width bin holds a marker (full oracle evaluated)",
-             required_labels=("empty_equal_width_bin",)),
+             required_labels=("empty_equal_width_bin", "model_u_misc_present:opv+gb", "model_u_misc_absent:opv+gb",
+                              "model_class=additive+dominance", "model_several_fixed_effect_rows")),
     SubCheck("history", check_history, history_case(), quick=300, thorough=2500, shards_quick=4,
              rule="one OPV / GenotypeBuilder / OHV problem object (built by from_pgmat_gpmod or by its constructor) x a history of "
                   "3-9 operations: evaluate (latentfn / evalfn), assign new block values through the public haplomat / ohvmat "
@@ -1183,5 +1295,7 @@ SUBCHECKS = [
                               "evaluated_again_after_inplace_edit_after_evaluation:gb",
                               "evaluated_again_after_inplace_edit_after_evaluation:ohv",
                               "inplace_edit_via=getter", "inplace_edit_via=buffer", "inplace_edit_extent=replace",
-                              "inplace_edit_extent=partial", "inplace_edit_extent=scale", "inplace_edit_shown_by_getter")),
+                              "inplace_edit_extent=partial", "inplace_edit_extent=scale", "inplace_edit_shown_by_getter",
+                              "model_u_misc_present:history_opv", "model_u_misc_present:history_gb",
+                              "model_u_misc_present:history_ohv")),
 ]
